@@ -54,10 +54,12 @@ class Pchain(EventPattern):
         streams = [stm.stream(p) for p in reversed(self.patterns)]
         try:
             while True:
-                inevent = inevent.copy()
+                # The input event is returned when any of the streams ends,
+                # not the event that was being built.
+                event = inevent.copy()
                 for stream in streams:
-                    inevent = stream.next(inevent)
-                inevent = yield inevent
+                    event = stream.next(event)
+                inevent = yield event
         except stm.StopStream:
             pass
         return inevent
